@@ -26,6 +26,13 @@ structure Ghost where
   doneCount : Nat := 0
   closeBeforeCancel : Bool := false
   dead : Bool := false
+  -- receive side (spair)
+  emittedData : Array Bytes := #[]
+  segs : List (Nat × Bytes × Bool) := []   -- delivered frames
+  out : Bytes := []                         -- everything Read returned so far
+  rErr : Bool := false                      -- the reader was reset (RESET_STREAM delivered / CancelRead)
+  rEnded : Bool := false                    -- Read returned EOF or an error
+  rPendingN : Option Nat := none
 deriving Inhabited
 
 structure St where
@@ -33,6 +40,7 @@ structure St where
   g : Ghost := {}
   ctrlEmitted : Array ResetFrame := #[]
   ctrlOpen : List Nat := []
+  nops : Nat := 0
 
 def fmtErr : Err → String
   | .none => "nil"
@@ -87,6 +95,92 @@ def parseImplFrame (impl : String) : Option (Nat × Bytes × Bool) :=
 
 def mon (n d : String) : String × String × String := (n, "-", d)
 
+def segRanges (g : Ghost) : List (Nat × Nat) := g.segs.map fun (o, d, _) => (o, o + d.length)
+
+/-- receive-side monitors on the `rd=` field (`B`, `-`, or `R<hex>,<err>`) -/
+def readMonitors (g : Ghost) (rd : String) (n : Nat) : Ghost × List (String × String × String) := Id.run do
+  let mut g := g
+  let mut fails : List (String × String × String) := []
+  let covered := coveredFrom (segRanges g) 0
+  let avail := covered - g.out.length
+  let finAt : Option Nat := g.segs.findSome? fun (o, d, f) => if f then some (o + d.length) else none
+  let readerLive := !g.rErr && !g.rEnded
+  if rd == "B" then
+    if readerLive && n > 0 && avail > 0 then
+      fails := fails ++ [mon "read_complete" s!"Read({n}) blocks although {avail} contiguous bytes were delivered beyond {g.out.length}"]
+    if readerLive && avail == 0 && finAt == some g.out.length then
+      fails := fails ++ [mon "read_complete" s!"Read blocks at offset {g.out.length} although the FIN for that offset was delivered"]
+    g := { g with rPendingN := some n }
+  else if rd.startsWith "R" then
+    g := { g with rPendingN := none }
+    match (rd.drop 1).toString.splitOn "," with
+    | [h, e] =>
+      let b := bytesOfHex h
+      let out' := g.out ++ b
+      if !g.contractBroken then
+        if !isPrefixOf out' g.written then
+          fails := fails ++ [mon "read_is_prefix" s!"bytes read ({out'.length}) are not a prefix of the {g.written.length} bytes written"]
+      if out'.length > covered then
+        fails := fails ++ [mon "read_within_delivered" s!"read up to {out'.length} but contiguous delivered data ends at {covered}"]
+      if b.length > n then
+        fails := fails ++ [mon "read_len" s!"Read({n}) returned {b.length} bytes"]
+      if e == "EOF" then
+        if !(g.closed && out'.length == g.written.length) && !g.contractBroken then
+          let cls := if g.closed && g.reset && g.supports && g.boundarySet && out'.length < g.written.length
+                     then "fin_below_final_size_after_reset_at" else "-"
+          fails := fails ++ [("eof_only_at_end", cls, s!"EOF after {out'.length} bytes, closed={g.closed} written={g.written.length}")]
+        if finAt != some out'.length then
+          fails := fails ++ [mon "eof_needs_fin" s!"EOF at {out'.length} but no FIN frame ending there was delivered"]
+      else if e != "nil" then
+        if readerLive then
+          fails := fails ++ [mon "read_no_spurious_error" s!"Read failed with {e} although the reader was never reset or shut down"]
+      else
+        if readerLive && n > 0 && avail > 0 && b.isEmpty then
+          fails := fails ++ [mon "read_complete" s!"Read({n}) returned nothing although {avail} bytes are available"]
+        if readerLive && n > 0 && avail == 0 && finAt == some g.out.length then
+          fails := fails ++ [mon "read_complete" s!"Read returned (0,nil) at the FIN offset instead of EOF"]
+      g := { g with out := out', rEnded := g.rEnded || e != "nil" }
+    | _ => pure ()
+  return (g, fails)
+
+/-- deliver / read / rreset / cancelread: the model side is the abstract contract only (C03 owns the
+    reassembly model), so the line is echoed and judged by the monitors. -/
+def stepRecv (st : St) (w : List String) (impl : String) : St × StepOut := Id.run do
+  let mut g := st.g
+  let head := (words impl).headD ""
+  let rd := (field impl "rd=").getD "-"
+  let mut n := g.rPendingN.getD 0
+  let mut tags : List String := []
+  let mut fails : List (String × String × String) := []
+  match w with
+  | ["deliver", i] =>
+    let i := natOf i
+    match g.emitted[i]?, g.emittedData[i]? with
+    | some (o, _, f), some d =>
+      if head == "skip" then
+        fails := fails ++ [mon "deliver_known_frame" s!"frame {i} was emitted but the driver skipped it"]
+      else
+        let dup := g.segs.any fun (o', d', f') => o' == o && d'.length == d.length && f' == f
+        tags := [if dup then "deliver:dup" else if o + d.length ≤ coveredFrom (segRanges g) 0 then "deliver:old"
+                 else if o > coveredFrom (segRanges g) 0 then "deliver:gap" else "deliver:next"]
+        if head != "nil" && !g.rErr then
+          fails := fails ++ [mon "deliver_accepted" s!"handleStreamFrame({o}+{d.length}) failed: {head}"]
+        g := { g with segs := g.segs ++ [(o, d, f)] }
+    | _, _ => tags := ["deliver:skip"]
+  | ["read", k] =>
+    if head != "skip" then
+      n := natOf k
+      tags := [if rd == "B" then "read:blocks" else if rd.endsWith ",EOF" then "read:eof" else if rd.endsWith ",nil" then "read:data" else "read:error"]
+    else tags := ["read:skip"]
+  | ["rreset", _] => g := { g with rErr := true }; tags := ["rreset"]
+  | ["cancelread", _] => g := { g with rErr := true, reset := true }; tags := ["cancelread"]
+  | _ => pure ()
+  if head != "skip" || w.head? != some "read" then
+    let (g', f') := readMonitors g rd n
+    g := g'; fails := fails ++ f'
+    if w.head? == some "deliver" && rd.startsWith "R" then tags := tags ++ ["deliver:wakes-reader"]
+  return ({ st with g := g, nops := st.nops + 1 }, { model := impl, tags := tags, fails := fails })
+
 /-- monitors evaluated after every op on the implementation's digest -/
 def stateMonitors (g : Ghost) (impl : String) : List (String × String × String) := Id.run do
   let mut fails : List (String × String × String) := []
@@ -134,6 +228,8 @@ def step (st : St) (op impl : String) : St × StepOut :=
   let s := st.m
   if s.dead then
     (st, { model := "dead", tags := ["dead"] })
+  else if ["deliver", "read", "rreset", "cancelread"].contains (w.headD "") then
+    stepRecv st w impl
   else Id.run do
     -- 1. the model
     let mut res := "bad-op"
@@ -144,8 +240,11 @@ def step (st : St) (op impl : String) : St × StepOut :=
     let mut st := st
     match w with
     | ["new", sid, sup] =>
-      s1 := { sid := natOf sid, supportsResetAt := sup == "1" }
-      res := "ok"; tags := ["new"]
+      if st.nops == 0 then
+        s1 := { sid := natOf sid, supportsResetAt := sup == "1" }
+        res := "ok"; tags := ["new"]
+      else
+        res := "skip"; tags := ["new:skip"]
     | ["write", h] =>
       let (a, e, r) := writeCall s (bytesOfHex h)
       s1 := a; ev := e
@@ -254,7 +353,7 @@ def step (st : St) (op impl : String) : St × StepOut :=
     let implW := (field impl "w=").getD "-"
     if implHead == "PANIC" then g := { g with dead := true }
     match w with
-    | ["new", _, sup] => g := { g with supports := sup == "1" }
+    | ["new", _, sup] => if st.nops == 0 then g := { g with supports := sup == "1" }
     | ["write", h] =>
       let p := bytesOfHex h
       let rejected := implHead == "skip" || (implW.startsWith "R0," && implW != "R0,nil")
@@ -284,9 +383,12 @@ def step (st : St) (op impl : String) : St × StepOut :=
         if d.isEmpty && !fin then
           fails := fails ++ [mon "frame_nonempty_or_fin" s!"empty frame without FIN at {off}"]
         let fr : Frame := { offset := off, data := d, fin := fin, dataLenPresent := true }
-        if fr.length st.m.sid > natOf mb then
+        -- the framer never asks with less than MinStreamFrameSize left (framer.go), which always fits a
+        -- FIN-only frame; the code emits that frame without looking at maxBytes
+        let finOnlyBelowContract := d.isEmpty && (natOf mb : Int) < Uquic.Gen.Protocol.MinStreamFrameSize
+        if fr.length st.m.sid > natOf mb && !finOnlyBelowContract then
           fails := fails ++ [mon "frame_fits_budget" s!"frame length {fr.length st.m.sid} > maxBytes {mb}"]
-        g := { g with outstanding := g.outstanding ++ [g.emitted.size], emitted := g.emitted.push (off, d.length, fin),
+        g := { g with outstanding := g.outstanding ++ [g.emitted.size], emitted := g.emitted.push (off, d.length, fin), emittedData := g.emittedData.push d,
                       nextNew := max g.nextNew (off + d.length) }
     | ["ack", i] =>
       let i := natOf i
@@ -312,6 +414,6 @@ def step (st : St) (op impl : String) : St × StepOut :=
           fails := fails ++ [mon "write_return_sound" s!"Write returned n={n} > bytes handed in"]
       | _ => pure ()
     fails := fails ++ stateMonitors g impl
-    return ({ st with m := s2, g := g }, { model := model, tags := tags, fails := fails })
+    return ({ st with m := s2, g := g, nops := st.nops + 1 }, { model := model, tags := tags, fails := fails })
 
 def main : IO Unit := run { init := ({} : St), step := step }
